@@ -224,6 +224,8 @@ def run(P, R, L):
     R.clause("PAIR-10", "a failed finalize of a compaction output leaves the state consistent (builder removed) so the error can be recorded")
     R.clause("PAIR-2", "followers receive the group's result before being notified; the leader returns the same result")
     K.pair2_group_result(P, R, L)
+    R.clause("OWN-14", "the outcome slot of a queued writer is written only by set_operation_result, unconditionally, with the value passed in (the group's outcome reaches a follower through it)")
+    K.own14_writer_outcome_slot(P, R, L)
     K.ord2_write_ahead(P, R, L, rule="ORD-2")
     R.clause("ORD-2", "a failed WAL append prevents the memtable insert (success-edge dominance) and records the sticky error")
     R.clause("ORD-5", "a failed manifest append leaves CURRENT pointing at the old, complete manifest (the new manifest is appended to before "
